@@ -9,6 +9,8 @@ use std::panic::{catch_unwind, AssertUnwindSafe};
 
 pub mod gen;
 pub mod snap;
+pub mod envdrive;
+pub mod shufstats;
 
 /// splitmix64: the harness's own generator
 #[derive(Clone)]
